@@ -252,10 +252,9 @@ Definition copy_panics_model (st : Z) : bool := false.
 Definition copy_panics_spec (st : Z) : bool := false.     (* Copy() returns a runtime of the same shape *)
 
 (* ---- Date.prototype.toJSON, step 3 of 15.9.5.44 ----
-   tv = ToPrimitive(this, hint Number).  ES5: "If tv is a Number and is not finite, return null";
-   otto (builtin_date.go builtinDateToJSON) converts tv to a float first, so a String primitive
-   that does not read as a finite number (such as "[object Object]", the ToPrimitive of a plain
-   object) also gives null instead of calling the receiver's toISOString. *)
+   tv = ToPrimitive(this, hint Number).  ES5: "If tv is a Number and is not finite, return null".
+   otto (builtin_date.go builtinDateToJSON, since f1c4c70) tests value.IsNumber() first, so a
+   String or Boolean primitive never gives null and the receiver's toISOString is called. *)
 Inductive tj_prim :=
 | TJNum (finite : bool)            (* a Number *)
 | TJStr (reads_finite : bool)      (* a String; whether ToNumber of it is finite *)
@@ -263,4 +262,4 @@ Inductive tj_prim :=
 Definition tojson_null_spec (tv : tj_prim) : bool :=
   match tv with TJNum f => negb f | _ => false end.
 Definition tojson_null_model (tv : tj_prim) : bool :=
-  match tv with TJNum f => negb f | TJStr f => negb f | TJBool => false end.
+  match tv with TJNum f => negb f | TJStr _ => false | TJBool => false end.
